@@ -626,6 +626,442 @@ def check_C13(tier):
     return ck.finish()
 
 
+PHASE_VAL = {3: 1, 4: 1, 5: 2, 6: 4}
+
+
+def raw_phase(board):
+    return sum(PHASE_VAL.get(pc % 8, 0) for pc in board if pc)
+
+
+def sound_cfg(bits, quiescence):
+    cfg = {n: False for n in sl.ALLSW}
+    cfg["UsePromNonQuiet"] = True
+    for i, n in enumerate(sl.SOUND):
+        cfg[n] = bool(bits >> i & 1)
+    if cfg["UseTT"]:
+        cfg["UseTTMove"] = True          # the hash table is used for move ordering only
+    if quiescence:
+        cfg.update({"UseQuiescence": True, "UseQSStandpat": True, "UseSEE": True})
+    return cfg
+
+
+def check_C06(tier):
+    ck = Check("C06", tier)
+    quick = tier == "quick"
+    rng = random.Random(SEED)
+    import shutil
+    fens = root_fens()
+    # game trees with empty history: the tree artefact (depth 2 for all roots) and a deeper one for sparse roots
+    arts = [(shared(tier)["tree"], [1, 2] if quick else [1, 2, 3])]
+    sparse = [f for f in sparse_fens() if int(f.split()[4]) <= 90][:(6 if quick else 16)]
+    arts.append((art_tree(sparse, 3 if quick else 4, [], "mm-sparse", timeout=4 * 3600), [3] if quick else [3, 4]))
+    items, jobs = [], []
+    drift = {}
+    for art, depths in arts:
+        ck.add_tlc(art)
+        nodes = {}
+        roots = [json.loads(l) for l in open(os.path.join(art, "roots.ndjson"))]
+        for line in vlib.tlc_lines(art):
+            o = vlib.obs_json(line)
+            nodes[(o["root"], tuple(o["path"]))] = o
+        maxd = max(depths)
+        rootids = sorted({k[0] for k in nodes})
+        if art is arts[0][0]:
+            # sample of roots: not terminal, clock <= 90
+            cand = [r for r in rootids if nodes[(r, ())]["legal"] and roots[r - 1]["hmc"] <= 90]
+            rng.shuffle(cand)
+            rootids = cand[:(20 if quick else 140)]
+        # leaf values from the engine's evaluator (fresh position from FEN)
+        leaves = [(k, o) for k, o in nodes.items() if k[0] in rootids and len(k[1]) in depths]
+        run = vlib.scratch("leaf")
+        try:
+            inp = os.path.join(run, "in.ndjson")
+            with open(inp, "w") as fh:
+                for i, (k, o) in enumerate(leaves):
+                    pos = {x: o[x] for x in ("board", "stm", "ep", "hmc", "fmn")}
+                    pos["cr"] = [c for c in "KQkq" if c in o["cr"]]
+                    fh.write(json.dumps({"id": i, "pos": pos}) + "\n")
+            outp = os.path.join(run, "out.ndjson")
+            vlib.run_driver(["leaf-eval", "-in", inp, "-out", outp], cwd=run, load=False)
+            vals = {}
+            for l in open(outp):
+                r = json.loads(l)
+                vals[leaves[r["id"]][0]] = r["v"]
+        finally:
+            shutil.rmtree(run, ignore_errors=True)
+
+        def subtree(r, path, d):
+            if d == 0:
+                return vals[(r, path)]
+            o = nodes[(r, path)]
+            return {str(m): subtree(r, path + (m,), d - 1) for m in o["legal"]}
+        for r in rootids:
+            o = nodes[(r, ())]
+            if not o["legal"] or roots[r - 1]["hmc"] > 90:
+                continue
+            pos = roots[r - 1]
+            node = {"pos": pos, "root": pos, "path": [], "kinds": [], "legal": o["legal"]}
+            for d in depths:
+                iid = len(items) + 1
+                items.append({"id": iid, "pos": pos, "d": d, "tree": subtree(r, (), d)})
+                drift[iid] = any(raw_phase(nodes[k]["board"]) > 24 for k in nodes if k[0] == r and len(k[1]) <= d)
+                combos = list(range(128)) if not quick else sorted(rng.sample(range(128), 14) + [0, 127])
+                for bits in combos:
+                    jobs.append(sl.job(node, len(jobs) + 1, "depth", "exact:%d:%d" % (iid, bits), depth=d,
+                                       cfg=sound_cfg(bits, False), iiddepth=2))
+                if d == max(depths):
+                    for bits in combos:
+                        jobs.append(sl.job(node, len(jobs) + 1, "depth", "qs:%d:%d" % (iid, bits), depth=d,
+                                           cfg=sound_cfg(bits, True), iiddepth=2))
+    # expected values: TLC evaluates Minimax
+    cfg = 'INIT Init\nNEXT Next\nCONSTANTS\n  ItemsFile = "items.ndjson"\n  Chunks = 64\nINVARIANT Out\nCHECK_DEADLOCK FALSE\n'
+    txt = "".join(json.dumps(i, separators=(",", ":")) + "\n" for i in items)
+    a = vlib.tlc("SearchValue", cfg, files={"items.ndjson": txt}, workers=16, tag="minimax", timeout=4 * 3600, heap="16g")
+    ck.add_tlc(a)
+    mm = {}
+    for line in vlib.tlc_lines(a, '<<"MMV"'):
+        v = json.loads(json.loads(line.rstrip()[len('<<"MMV", '):-2]))
+        mm[v["id"]] = v
+    if len(mm) != len(items):
+        raise Inconclusive("Minimax answers: %d of %d" % (len(mm), len(items)))
+    byd1 = {}
+    for it in items:
+        byd1[(json.dumps(it["pos"], sort_keys=True), it["d"])] = it["id"]
+    recs = sl.run_jobs(jobs, procs=12)
+    byid = {j["id"]: j for j in jobs}
+
+    def disc(kind, sig, fen, detail, job):
+        ck.discs.append({"prop": "C06", "kind": kind, "sig": sig, "fen": fen, "detail": detail, "replay": {"job": job}})
+        key = "C06|%s|%s" % (kind, sig)
+        ck.disc_count[key] = ck.disc_count.get(key, 0) + 1
+    qsvals = {}
+    ncmp = 0
+    for r in recs:
+        j = byid[r["id"]]
+        kind, iid, bits = j["tag"].split(":")
+        iid, bits = int(iid), int(bits)
+        if r["error"]:
+            disc("search-fails", "search-fails", r["fen"], r["error"], j)
+            continue
+        want = mm[iid]
+        if kind == "exact":
+            if want["nLegal"] == 1 and j["depth"] > 1:
+                # a single legal move is answered after the first iteration
+                want = mm[byd1[(json.dumps(j["pos"], sort_keys=True), 1)]]
+            ncmp += 1
+            tag = "/game-phase-drift-possible" if drift[iid] else ""
+            on = [n for i, n in enumerate(sl.SOUND) if bits >> i & 1]
+            if r["value"] != want["value"]:
+                disc("value-not-minimax", "minimax/value" + tag, r["fen"],
+                     {"depth": j["depth"], "engine": r["value"], "minimax": want["value"], "switches_on": on}, j)
+            elif r["best"] not in want["bestMoves"]:
+                disc("best-move-does-not-attain-value", "minimax/best-move" + tag, r["fen"],
+                     {"depth": j["depth"], "best": fenspec.mv_uci(r["best"]), "value": r["value"],
+                      "moves_attaining": [fenspec.mv_uci(m) for m in want["bestMoves"]], "switches_on": on}, j)
+        else:
+            qsvals.setdefault(iid, {}).setdefault(r["value"], []).append(bits)
+    for iid, byval in qsvals.items():
+        ncmp += 1
+        if len(byval) > 1:
+            it = items[iid - 1]
+            disc("quiescence-value-depends-on-sound-switches", "qs/value-differs" + ("/game-phase-drift-possible" if drift[iid] else ""),
+                 sl.fen_of(it["pos"]), {"depth": it["d"], "values": {str(v): [[n for i, n in enumerate(sl.SOUND) if b >> i & 1] for b in bs[:3]]
+                                                                   for v, bs in byval.items()}}, None)
+    ck.cov["evaluations"] = len(recs)
+    ck.cov["distinct_nontrivial"] = len(items)
+    ck.cov["traces_validated_against_impl"] = ncmp
+    ck.cov["rule"] = ("(root, depth) pairs with empty game history: the tree and the scoring rules come from the specification, the leaf numbers "
+                      "from the engine's evaluator (fresh position per leaf), TLC evaluates Minimax (SearchValue.tla); the engine searches each "
+                      "pair under %d combinations of the seven sound switches (unsound ones and quiescence off) and must return the minimax "
+                      "value with a move attaining it; with quiescence on the value must agree across the combinations; non-trivial = "
+                      "distinct (root, depth) pairs" % (128 if not quick else 16))
+    ck.cov["samples"] = [{"fen": sl.fen_of(items[i - 1]["pos"]), "depth": mm[i]["d"], "minimax_value": mm[i]["value"],
+                          "moves_attaining": [fenspec.mv_uci(m) for m in mm[i]["bestMoves"]]} for i in list(mm)[:4]]
+    ck.assumptions.append("roots have a half-move clock <= 90 and an empty history (Appendix E.7)")
+    return ck.finish()
+
+
+START_FEN = "rnbqkbnr/pppppppp/8/8/8/8/PPPPPPPP/RNBQKBNR w KQkq - 0 1"
+MATED_FEN = "rnb1kbnr/pppp1ppp/8/4p3/6Pq/5P2/PPPPP2P/RNBQKBNR w KQkq - 1 3"       # no legal move: the search ends at once
+ONEMOVE_FEN = "7k/8/8/8/8/8/5q2/7K w - - 0 1"                                      # hmm: replaced below by a real single-move position
+KIWI_FEN = "r3k2r/p1ppqpb1/bn2pnp1/3PN3/1p2P3/2N2Q1p/PPPBBPPP/R3K2R w KQkq - 0 1"
+
+
+def life_scripts(tier, rng):
+    S = START_FEN
+
+    def st(mode, fen=S, depth=0, ms=0):
+        return {"op": "start", "mode": mode, "fen": fen, "depth": depth, "ms": ms}
+    sl_ = lambda ms: {"op": "sleep", "ms": ms}   # noqa: E731
+    stop, wait, iss, hit, ng = {"op": "stop"}, {"op": "wait"}, {"op": "issearching"}, {"op": "ponderhit"}, {"op": "newgame"}
+    named = [
+        ("start-while-running", [st("inf"), sl_(10), st("depth", depth=2), iss, stop]),
+        ("start-while-running-finished-inf", [st("inf", depth=1), sl_(20), st("depth", depth=2), sl_(20), stop]),
+        ("stale-timer-then-infinite", [st("time", fen=MATED_FEN, ms=60), st("inf"), sl_(40), iss, stop]),
+        ("stale-timer-then-ponder", [st("time", fen=MATED_FEN, ms=60), st("ponder", ms=400), sl_(40), iss, stop]),
+        ("go-right-after-result", [st("depth", depth=1), wait, st("depth", depth=1), wait, st("depth", depth=2), wait]),
+        ("stop-then-go", [st("inf"), sl_(10), stop, st("depth", depth=2), wait]),
+        ("ponderhit", [st("ponder", ms=300), sl_(10), hit, wait]),
+        ("ponderhit-not-pondering", [st("depth", depth=3), hit, wait, hit]),
+        ("newgame-while-searching", [st("inf"), sl_(5), ng, st("depth", depth=1), wait]),
+        ("time-then-time", [st("time", ms=40), wait, st("time", ms=40), wait]),
+        ("stop-idle", [stop, iss, st("depth", depth=1), wait, stop]),
+        ("housekeeping-while-searching", [st("inf"), {"op": "isready"}, {"op": "clearhash"}, {"op": "resize"}, iss, stop]),
+    ]
+    scripts = []
+    for name, calls in named:
+        for jit in ((0, 300) if tier == "quick" else (0, 100, 300, 1000, 3000)):
+            scripts.append({"id": len(scripts) + 1, "name": name, "calls": calls, "jitter": jit})
+    # random controller scripts
+    n = 40 if tier == "quick" else 1500
+    for _ in range(n):
+        calls, running = [], None            # running: mode of the search that may still be running
+        for _ in range(rng.randint(3, 7)):
+            r = rng.random()
+            if r < 0.45:
+                mode = rng.choice(["depth", "time", "inf", "ponder"])
+                fen = rng.choice([S, S, KIWI_FEN, MATED_FEN])
+                calls.append(st(mode, fen=fen, depth=rng.choice([0, 1, 2, 3]) if mode != "depth" else rng.choice([1, 2, 3]),
+                                ms=rng.choice([30, 60]) if mode == "time" else 300))
+                if running is None:
+                    running = mode
+            elif r < 0.65:
+                calls.append(stop)
+                running = None
+            elif r < 0.72 and running in ("depth", "time"):
+                calls.append(wait)
+                running = None
+            elif r < 0.80:
+                calls.append(iss)
+            elif r < 0.86:
+                calls.append(hit)
+                if running == "ponder":
+                    running = "time"
+            elif r < 0.90:
+                calls.append(ng)
+                running = None
+            elif r < 0.94:
+                calls.append(rng.choice([{"op": "isready"}, {"op": "clearhash"}]))
+            else:
+                calls.append(sl_(rng.choice([1, 4, 6, 12, 30])))
+        scripts.append({"id": len(scripts) + 1, "name": "random", "calls": calls, "jitter": rng.choice([0, 0, 200, 1000, 3000])})
+    return scripts
+
+
+def run_life(scripts, race=False, watchdog=3000):
+    """Runs lifecycle scripts in driver processes (a hang abandons the process; the rest is re-run)."""
+    import shutil
+    import subprocess
+    run = vlib.scratch("life")
+    drv = vlib.driver(race=race)
+    out = []
+    racelog = os.path.join(run, "race")
+    try:
+        sf = os.path.join(run, "scripts.ndjson")
+        procs = 8
+        parts = [scripts[i::procs] for i in range(procs)]
+        jobs = []
+        for k, part in enumerate(parts):
+            if not part:
+                continue
+            pf = os.path.join(run, "s%d.ndjson" % k)
+            with open(pf, "w") as fh:
+                for s_ in part:
+                    fh.write(json.dumps(s_) + "\n")
+            jobs.append({"pf": pf, "rf": os.path.join(run, "r%d.ndjson" % k), "n": len(part), "ids": [s_["id"] for s_ in part]})
+        env = dict(os.environ)
+        if race:
+            env["GORACE"] = "log_path=%s halt_on_error=0 exitcode=0" % racelog
+        pending = []
+        for j in jobs:
+            j["p"] = subprocess.Popen([drv, "life-run", "-scripts", j["pf"], "-out", j["rf"], "-seed", str(SEED), "-watchdog", str(watchdog)],
+                                      cwd=run, stdout=subprocess.DEVNULL, stderr=subprocess.DEVNULL, env=env)
+            pending.append(j)
+        import time as _t
+        t0 = _t.time()
+        while pending:
+            _t.sleep(0.1)
+            if _t.time() - t0 > 1800:
+                raise Inconclusive("lifecycle runs timed out")
+            for j in list(pending):
+                rc = j["p"].poll()
+                if rc is None:
+                    continue
+                done = [json.loads(l) for l in open(j["rf"])] if os.path.exists(j["rf"]) else []
+                if rc == 3 and len(done) < j["n"]:
+                    # abandoned after a hang: continue with the scripts not yet run
+                    rest = [s_ for s_ in (json.loads(l) for l in open(j["pf"])) if s_["id"] not in {d["id"] for d in done}]
+                    with open(j["pf"], "w") as fh:
+                        for s_ in rest:
+                            fh.write(json.dumps(s_) + "\n")
+                    j["p"] = subprocess.Popen([drv, "life-run", "-scripts", j["pf"], "-out", j["rf"], "-seed", str(SEED), "-watchdog", str(watchdog)],
+                                              cwd=run, stdout=subprocess.DEVNULL, stderr=subprocess.DEVNULL, env=env)
+                elif rc in (0, 3):
+                    pending.remove(j)
+                else:
+                    raise Inconclusive("life-run died rc=%s" % rc)
+        for j in jobs:
+            if os.path.exists(j["rf"]):
+                out += [json.loads(l) for l in open(j["rf"])]
+        races = ""
+        import glob as _g
+        for f in _g.glob(racelog + ".*"):
+            races += open(f, errors="replace").read()
+        return out, races
+    finally:
+        shutil.rmtree(run, ignore_errors=True)
+
+
+def life_trace(res):
+    """Per-goroutine event sequences of one recorded script (input of SearchLifecycleTrace)."""
+    c, r, t = [], {}, {}
+    for e in res["events"]:
+        g = e["g"]
+        if g == "c":
+            c.append({"at": e["at"], "mode": e.get("mode", "") or "", "value": bool(e.get("value", False))})
+        elif g.startswith("r"):
+            r.setdefault(g, []).append(e["at"])
+        elif g.startswith("t"):
+            t.setdefault(g, []).append(e["at"])
+    order = lambda d: [d[k] for k in sorted(d, key=lambda x: int(x[1:]))]   # noqa: E731
+    return {"c": c, "r": order(r), "t": order(t)}
+
+
+def validate_life(results, tag):
+    """Validates recorded runs against SearchLifecycle.tla; returns {id: (explained, props_ok, matched, total)}."""
+    import concurrent.futures
+    import shutil
+
+    def one(res):
+        tr = life_trace(res)
+        nstart = sum(1 for e in tr["c"] if e["at"] == "call.start.begin")
+        cfg = ("SPECIFICATION TSpec\nCONSTANTS\n  MaxSearches = %d\n  MaxCalls = 1000\n  MaxClock = %d\n  TL = 2\n"
+               '  Modes = {"depth", "time", "inf", "ponder"}\n  FixReject = TRUE\n  FixLimits = TRUE\n  FixTimer = TRUE\n  FixTail = TRUE\n'
+               '  TraceFile = "trace.json"\nCONSTRAINT Mark\nPOSTCONDITION Report\nCHECK_DEADLOCK FALSE\n'
+               % (max(1, nstart), 2 * (len(tr["t"]) + 1) + 1))
+        art = vlib.tlc("SearchLifecycleTrace", cfg, files={"trace.json": json.dumps(tr)}, workers=1, tag=tag, cache=False, heap="2g",
+                       timeout=600, env_opts=["-Dtlc2.tool.queue.IStateQueue=StateDeque"])
+        verdict = None
+        for l in vlib.tlc_lines(art, '<<"LIFE-VERDICT"'):
+            m = l.strip().strip("<>").split(",")
+            verdict = (m[1].strip() == "TRUE", m[2].strip() == "TRUE", int(m[3]), int(m[4]))
+        st = vlib.art_stats(art)
+        shutil.rmtree(art, ignore_errors=True)
+        if verdict is None:
+            raise Inconclusive("no verdict from SearchLifecycleTrace: %s" % st.get("error"))
+        return res["id"], verdict, st
+    out, states, trans = {}, 0, 0
+    with concurrent.futures.ThreadPoolExecutor(max_workers=12) as ex:
+        for rid, v, st in ex.map(one, results):
+            out[rid] = v
+            states += st.get("distinct_states", 0)
+            trans += st.get("states_generated", 0)
+    return out, states, trans
+
+
+def check_C14(tier):
+    ck = Check("C14", tier)
+    quick = tier == "quick"
+    rng = random.Random(SEED)
+    # 1. the model itself: all interleavings of controller, search and timer goroutines
+    mc = (3, 5, 3) if quick else (3, 6, 4)
+    cfg = ('SPECIFICATION Spec\nCONSTANTS\n  MaxSearches = %d\n  MaxCalls = %d\n  MaxClock = %d\n  TL = 2\n'
+           '  Modes = {"depth", "time", "inf", "ponder"}\n  FixReject = TRUE\n  FixLimits = TRUE\n  FixTimer = TRUE\n  FixTail = TRUE\n'
+           'INVARIANTS TypeOK NoCtrlStuck OneResultEach OwnStopOnly NoResultBeforeStop\nCHECK_DEADLOCK FALSE\n' % mc)
+    a = vlib.tlc("SearchLifecycle", cfg, workers=16, heap="24g", tag="life-mc", keep_out=False, timeout=6 * 3600)
+    ck.add_tlc(a)
+    # 2. real runs: named scenarios (the counterexamples TLC finds for the unrepaired code) and random scripts
+    scripts = life_scripts(tier, rng)
+    byid = {s_["id"]: s_ for s_ in scripts}
+    results, _ = run_life(scripts)
+
+    def disc(kind, sig, res, detail):
+        sc = byid[res["id"]]
+        ck.discs.append({"prop": "C14", "kind": kind, "sig": sig, "fen": "", "detail": detail,
+                         "replay": {"script": sc, "events": [e["g"] + ":" + e["at"] for e in res["events"]][:200]}})
+        key = "C14|%s|%s" % (kind, sig)
+        ck.disc_count[key] = ck.disc_count.get(key, 0) + 1
+    ok_runs = []
+    for res in results:
+        sc = byid[res["id"]]
+        if res["hang"]:
+            disc("call-does-not-return", "hang/" + res["hang"].split("(")[1].split(")")[0].split()[0], res, {"script": sc["name"], "hang": res["hang"]})
+            continue
+        if res["panic"]:
+            disc("panic", "panic", res, res["panic"])
+            continue
+        accepted = sum(1 for e in res["events"] if e["at"] == "r.try.ok")
+        if res["results"] != accepted:
+            disc("result-count", "results/%s" % ("missing" if res["results"] < accepted else "extra"), res,
+                 {"accepted_starts": accepted, "results": res["results"], "script": sc["name"]})
+        # an infinite / ponder search must not deliver its result before a stop (or ponderhit) was requested:
+        # the request is logged by the driver BEFORE the call, the end of the search after it happened
+        modes = [e.get("mode") for e in res["events"] if e["at"] == "call.start.begin"]
+        gs = []
+        for e in res["events"]:
+            if e["g"].startswith("r") and e["g"] not in gs:
+                gs.append(e["g"])
+        for k, g in enumerate(gs):
+            mode = modes[k] if k < len(modes) else ""
+            ev = {e["at"]: e["seq"] for e in res["events"] if e["g"] == g}
+            if mode in ("inf", "ponder") and "r.try.ok" in ev and "r.end.set" in ev:
+                reqs = ["call.stop.begin", "call.newgame.begin"] + (["call.ponderhit.begin"] if mode == "ponder" else [])
+                if not any(e["at"] in reqs and ev["r.try.ok"] < e["seq"] < ev["r.end.set"] for e in res["events"]):
+                    disc("result-before-stop", "early-result/" + mode, res,
+                         {"script": sc["name"], "search": g, "note": "the search ended although no stop was requested"})
+        ok_runs.append(res)
+    if len(results) != len(scripts):
+        raise Inconclusive("only %d of %d scripts produced a record" % (len(results), len(scripts)))
+    # 3. trace validation: every recorded run must be a behaviour of the model in which the lifecycle properties hold
+    verdicts, states, trans = validate_life(ok_runs, "life-trace")
+    ck.cov["states"] += states
+    ck.cov["transitions"] += trans
+    nacc = 0
+    for res in ok_runs:
+        explained, props, matched, total = verdicts[res["id"]]
+        if explained and props:
+            nacc += 1
+        elif explained:
+            disc("lifecycle-property-violated-in-real-run", "trace/property/" + byid[res["id"]]["name"], res,
+                 {"note": "the recorded run is a behaviour of SearchLifecycle.tla only with a search ended early / answered by leftovers"})
+        else:
+            # model drift: not a verdict on the code (DESIGN 4.4) - reported, monitors above still decide
+            ck.notes.append("DRIFT: run %d (%s) is not a behaviour of SearchLifecycle.tla (matched %d of %d controller events)"
+                            % (res["id"], byid[res["id"]]["name"], matched, total))
+    drift = len(ok_runs) - nacc - sum(1 for d in ck.discs if d["kind"].startswith("lifecycle-property"))
+    # 4. data races: the same scripts under the race detector
+    rres, races = run_life(scripts if quick else scripts[:400], race=True, watchdog=6000)
+    import re
+    nrace = 0
+    for blk in races.split("WARNING: DATA RACE")[1:]:
+        frames = re.findall(r"^\s+(\S+)\(.*\)\n\s+(\S+?):(\d+)", blk, re.M)
+        stacks = re.split(r"\n\n", blk.strip())
+        tops = []
+        for stk in stacks[:2]:
+            m = re.search(r"^\s+(\S+)\(.*?\)\n\s+(\S+?):(\d+)", stk, re.M)
+            if m:
+                tops.append((m.group(1), m.group(2), m.group(3)))
+        if len(tops) == 2 and all("/internal/" in t[1] and "/verifdrv/" not in t[1] for t in tops):
+            nrace += 1
+            sig = "race/" + " vs ".join(sorted(t[0].split("/")[-1] for t in tops))
+            ck.discs.append({"prop": "C14", "kind": "data-race", "sig": sig, "fen": "", "detail": blk[:1500], "replay": {}})
+            key = "C14|data-race|" + sig
+            ck.disc_count[key] = ck.disc_count.get(key, 0) + 1
+    ck.cov["evaluations"] = len(results) + len(rres)
+    ck.cov["distinct_nontrivial"] = len({json.dumps(s_["calls"]) + str(s_["jitter"]) for s_ in scripts})
+    ck.cov["traces_validated_against_impl"] = nacc
+    ck.cov["counters"] = {"scripts": len(scripts), "runs_explained_by_model": nacc, "model_drift": drift,
+                          "race_detector_runs": len(rres), "race_reports_in_engine_code": nrace}
+    ck.cov["rule"] = ("SearchLifecycle.tla model-checked for all interleavings of controller, search and timer goroutines (%d searches, %d calls, "
+                      "%d clock ticks); real controller scripts (the named counterexamples of the unrepaired code and seeded random scripts, "
+                      "with random delays injected at the hooks) run against the real Search with a watchdog on every call, each recorded run "
+                      "validated against the model with the lifecycle properties (SearchLifecycleTrace.tla), and repeated under the Go race "
+                      "detector; non-trivial = distinct scripts" % mc)
+    ck.cov["samples"] = [{"script": byid[r["id"]]["name"], "calls": [c["op"] + (":" + c["mode"] if c.get("mode") else "") for c in byid[r["id"]]["calls"]],
+                          "events": [e["g"] + ":" + e["at"] for e in r["events"]][:40]} for r in results[:2]]
+    return ck.finish()
+
+
 def getattr_default(name):
     """Default value of a boolean search switch (mirrors internal/config/searchconfig.go; only used to
     flip single switches - a wrong entry merely changes which configuration is explored)."""
